@@ -30,6 +30,8 @@ pub enum CmdCase {
     /// (transport: 0 = SPI with a staging buffer of `buf` bytes, 1 = 8-bit parallel, 2 = 16-bit parallel)
     RawOnTransport { transport: u8, buf: u8, instr: u8, params: Vec<u8> },
     ScrollAreaOnTransport { transport: u8, buf: u8, tfa: u16, vsa: u16, bfa: u16 },
+    /// several raw commands with pixel words in between (state kept by a transport between commands)
+    SeqOnTransport { transport: u8, buf: u8, cmds: Vec<(u8, Vec<u8>)>, pixels: Vec<u8> },
     /// SetAddressMode built by new() and then modified by setters (serialisation of the result)
     AddressModeWord(super::c14::ModeCase),
 }
@@ -94,13 +96,18 @@ fn on_bus(f: impl FnOnce(&mut RecIface<u8, KP8>) -> Result<(), Fault>) -> Result
 
 /// object-safe view of the three real transports
 trait Tx {
+    fn pixels(&mut self, px: &[u8]) -> Result<(), String>;
     fn raw(&mut self, instr: u8, params: &[u8]) -> Result<(), String>;
     fn scroll(&mut self, tfa: u16, vsa: u16, bfa: u16) -> Result<(), String>;
 }
 impl<T: mipidsi::interface::Interface> Tx for T
 where
     T::Error: core::fmt::Debug,
+    T::Word: From<u8>,
 {
+    fn pixels(&mut self, px: &[u8]) -> Result<(), String> {
+        self.send_pixels(px.iter().map(|b| [T::Word::from(*b)])).map_err(|e| format!("{:?}", e))
+    }
     fn raw(&mut self, instr: u8, params: &[u8]) -> Result<(), String> {
         self.write_raw(instr, params).map_err(|e| format!("{:?}", e))
     }
@@ -271,6 +278,33 @@ pub fn check(c: &CmdCase, info: &mut CaseInfo) -> Result<(), String> {
             }
             Ok(())
         }
+        CmdCase::SeqOnTransport { transport, buf, cmds, pixels } => {
+            let mut want: Vec<(bool, u16)> = Vec::new();
+            for (i, (instr, params)) in cmds.iter().enumerate() {
+                want.push((false, *instr as u16));
+                want.extend(params.iter().map(|b| (true, *b as u16)));
+                if i + 1 < cmds.len() {
+                    want.extend(pixels.iter().map(|b| (true, *b as u16)));
+                }
+            }
+            let got = on_transport(*transport, *buf, |t| {
+                for (i, (instr, params)) in cmds.iter().enumerate() {
+                    t.raw(*instr, params)?;
+                    if i + 1 < cmds.len() {
+                        t.pixels(pixels)?;
+                    }
+                }
+                Ok(())
+            })?;
+            if got != want {
+                let pos = got.iter().zip(want.iter()).position(|(a, b)| a != b).unwrap_or(got.len().min(want.len()));
+                return Err(format!(
+                    "command sequence {:02x?} with {} pixel words in between through transport {}: word {} latched as {:02x?}, expected {:02x?}",
+                    cmds.iter().map(|c| c.0).collect::<Vec<_>>(), pixels.len(), transport, pos, got.get(pos), want.get(pos)
+                ));
+            }
+            Ok(())
+        }
         CmdCase::AddressModeWord(m) => super::c14::check(m, info),
     }
 }
@@ -306,6 +340,17 @@ fn strategy() -> BoxedStrategy<CmdCase> {
             .prop_map(|(transport, buf, instr, params)| CmdCase::RawOnTransport { transport, buf, instr, params }),
         2 => (0u8..3, 1u8..=12, asym_u16(), asym_u16(), asym_u16())
             .prop_map(|(transport, buf, tfa, vsa, bfa)| CmdCase::ScrollAreaOnTransport { transport, buf, tfa, vsa, bfa }),
+        3 => (0u8..3, 2u8..=12, any::<u8>(), proptest::collection::vec(any::<u8>(), 0..=6), proptest::collection::vec((any::<bool>(), any::<u8>(), proptest::collection::vec(any::<u8>(), 0..=4)), 1..=3), proptest::collection::vec(any::<u8>(), 0..=5))
+            .prop_map(|(transport, buf, i0, p0, rest, pixels)| {
+                // later opcodes often repeat the final byte of the command before them
+                let mut cmds = vec![(i0, p0)];
+                for (same, instr, params) in rest {
+                    let prev = cmds.last().unwrap();
+                    let last_byte = prev.1.last().copied().unwrap_or(prev.0);
+                    cmds.push((if same { last_byte } else { instr }, params));
+                }
+                CmdCase::SeqOnTransport { transport, buf, cmds, pixels }
+            }),
         2 => (any::<[bool; 3]>(), crate::gen::orient(), proptest::collection::vec(proptest::sample::select(super::c14::all_setters()), 1..=6))
             .prop_map(|(b, orient, word)| CmdCase::AddressModeWord(super::c14::ModeCase { bgr: b[0], orient, refresh_v: b[1], refresh_h: b[2], via_options: false, word })),
     ]
@@ -351,6 +396,12 @@ fn enumerated() -> Vec<CmdCase> {
                 out.push(CmdCase::RawOnTransport { transport, buf, instr: 0xB0 ^ buf, params: (0..len).map(|i| (i as u8).wrapping_mul(29) ^ 0x5c).collect() });
             }
             out.push(CmdCase::ScrollAreaOnTransport { transport, buf, tfa: 0x0102, vsa: 0x0304, bfa: 0x0506 });
+        }
+    }
+    for transport in 0..3u8 {
+        for px in [vec![], vec![0xE0u8], vec![0x2C, 0x00, 0x3C]] {
+            out.push(CmdCase::SeqOnTransport { transport, buf: 4, cmds: vec![(0x2C, vec![]), (0x2C, vec![])], pixels: px.clone() });
+            out.push(CmdCase::SeqOnTransport { transport, buf: 4, cmds: vec![(0xB1, vec![1, 0x2A]), (0x2A, vec![0, 1, 0, 2]), (0x02, vec![])], pixels: px.clone() });
         }
     }
     for a in super::c14::all_setters() {
